@@ -451,15 +451,28 @@ def run_exact(ns, mon, case):
     for dt, exps in ((np.float64, [20, 0, -30, -12, 3]), (np.float32, [10, 0, -11, -5, 2])):
         x = nn.Parameter(T(rng.standard_normal((3,)).astype(dt), requires_grad=True))
         box = nn.Module(); box.p = x
-        opt = ns.optim.SGD([x], lr=0.0)
+        # tied storage (half of the histories): a second, distinct parameter over the very array x holds (encoder / decoder sharing one buffer);
+        # it is a leaf of its own - own contributions, reset by every reset that covers the module / the optimizer's parameter list
+        tied = rng.random() < 0.5
+        y = None
+        if tied:
+            y = nn.Parameter(T(x.data, requires_grad=True))
+            box.inner = nn.Module(); box.inner.q = y
+            counters["tied_storage_histories"] = counters.get("tied_storage_histories", 0) + 1
+        opt = ns.optim.SGD(box.parameters() if tied else [x], lr=0.0)
         total = np.zeros(3, dtype=np.float64)
+        total_y = np.zeros(3, dtype=np.float64)
         order = [int(i) for i in rng.permutation(len(exps))]
         for step, i in enumerate(order * 2):
             c = float(2.0 ** exps[i])
             if rng.random() < 0.5:
-                (x * c).sum().backward()
+                l_ = (x * c).sum()
             else:
-                (x * T(np.full(3, c, dtype=dt))).sum().backward()
+                l_ = (x * T(np.full(3, c, dtype=dt))).sum()
+            if tied:
+                l_ = l_ + (y * (2 * c)).sum()
+                total_y += 2 * c
+            l_.backward()
             total += c
             counters["exact_comparisons"] = counters.get("exact_comparisons", 0) + 1
             g = x._grad
@@ -468,14 +481,27 @@ def run_exact(ns, mon, case):
                               "together in the leaf's dtype, did not add up exactly (the gradient buffer has less precision than the leaf?)",
                               got=None if g is None else np.asarray(g, dtype=np.float64).tolist(), want=total.tolist(), step=step, dtype=np.dtype(dt).name))
                 break
-            if rng.random() < 0.35:
+            if tied and (y._grad is None or not np.array_equal(np.asarray(y._grad, dtype=np.float64), total_y)):
+                viol.append(V("exact:tied-storage:second-parameter-gradient", "a second parameter over the same array did not accumulate exactly its own contributions since its last reset",
+                              got=None if y._grad is None else np.asarray(y._grad, dtype=np.float64).tolist(), want=total_y.tolist(), step=step))
+                break
+            nresets = int(rng.random() < 0.35) + int(rng.random() < 0.12)          # sometimes two resets in a row (a discarded micro-batch, a restarted window)
+            for _ in range(nresets):
                 kind = int(rng.integers(3))
                 (x.zero_ if kind == 0 else (box.zero_grad if kind == 1 else opt.zero_grad))()
                 total[:] = 0.0
+                if kind != 0:
+                    total_y[:] = 0.0
                 g = x._grad
                 if g is not None and np.any(np.asarray(g) != 0):
                     viol.append(V("exact:reset-left-a-gradient", "a reset left a non-zero gradient on the leaf", kind=["zero_", "module.zero_grad", "optimizer.zero_grad"][kind]))
                     break
+                if tied and kind != 0 and y._grad is not None and np.any(np.asarray(y._grad) != 0):
+                    viol.append(V("exact:reset-left-a-gradient:tied-storage", "a module / optimizer reset left a non-zero gradient on a second parameter over the same array",
+                                  kind=["zero_", "module.zero_grad", "optimizer.zero_grad"][kind]))
+                    break
+            if viol:
+                break
     mv = [v for v in mon.drain() if not v["sig"].startswith(("grad-dtype", "release"))]
     return {"key": ("exact", case["seed"] % 50), "viol": viol + mv, "counters": counters, "cover": {"scenarios": ["exact-powers-of-two"]}}
 
